@@ -22,5 +22,18 @@ for cfg in ["default", "cli", "optel", "openapi", "python"]:
             key = crate + "|" + f["path"]
             e = out["fns"].setdefault(key, {"sig": [l["ty"] for l in f["locals"][:f["argc"] + 1]], "cfgs": []})
             e["cfgs"].append(cfg)
+        # who calls whom (statically resolved local calls; closures attributed to their enclosing function)
+        local = set(f["path"] for f in d["functions"])
+        for f in d["functions"]:
+            caller = f["path"].split("::{closure")[0]
+            for b in f["blocks"]:
+                t = b["term"]
+                if t["k"] == "call" and isinstance(t.get("func"), dict) and isinstance(t["func"].get("k"), dict):
+                    fn = t["func"]["k"].get("fn") or {}
+                    cp = fn.get("rpath") or fn.get("path")
+                    if cp in local and cp != caller:
+                        cs = out.setdefault("callers", {}).setdefault(crate + "|" + cp, [])
+                        if caller not in cs:
+                            cs.append(caller)
 json.dump(out, open(OUT, "w"), indent=0, sort_keys=True)
 print("adts", len(out["adts"]), "fns", len(out["fns"]))
